@@ -479,6 +479,154 @@ def oracle_dup(run, beams, n):
     return bad
 
 
+# ---------------------------------------------------------------- EVERY class, incl. the "switched off but not trivial" corners
+PREAMBLE_CLS = """From Coq Require Import List String ZArith QArith.
+From Cheetah Require Import Lattice.Split Lattice.SplitClasses.
+Import ListNotations. Open Scope Q_scope. Open Scope string_scope."""
+CLS_RES = [0.03, 0.07, 0.15, 3.0]          # (length pool of realgen) / these: never within an ulp of an integer; 3.0: coarser than any length
+BEND_EXTRAS = [{}, {"tilt": 0.3}, {"gap": 0.02, "fringe_integral": 0.5, "fringe_at": "both"},
+               {"gap": 0.03, "fringe_integral": 0.4, "gap_exit": 0.01, "fringe_integral_exit": 0.3, "fringe_at": "entrance"}]
+
+
+def class_corners(rng):
+    """element specs (realgen format) in which the parameter that `is_active` looks at is ZERO while the element still acts on the
+    beam (or has other parameters set), plus vectorised mixes of zero and non-zero strengths; for every class, both tracking methods"""
+    out = []
+
+    def add(label, cls, **kw):
+        e = realgen.gen_element(rng, cls=cls, name="c")
+        e["kw"].update(kw)
+        out.append((label, e))
+    for cls, e in (("Dipole", "dipole_e"), ("RBend", "rbend_e")):
+        for method in ("cheetah", "bmadx"):
+            ex = dict(rng.choice(BEND_EXTRAS))
+            add("bend_angle0_k1", cls, angle=0.0, k1=rng.choice([3.0, -2.0, 0.5, 10.0]), length=rng.choice([0.25, 0.5, 1.0]), tracking_method=method,
+                **{e + "1": rng.choice([0.0, 0.05, -0.1]), e + "2": rng.choice([0.0, 0.05, -0.1])}, **ex)
+            add("bend_angle0_k1_plain", cls, angle=0.0, k1=rng.choice([3.0, -2.0]), length=0.5, tracking_method=method, tilt=0.0,
+                **{e + "1": 0.0, e + "2": 0.0})
+            add("bend_angle0_k10", cls, angle=0.0, k1=0.0, length=rng.choice([0.25, 1.0]), tracking_method=method,
+                **{e + "1": rng.choice([0.0, 0.05]), e + "2": rng.choice([0.0, -0.1])})
+            add("bend_on", cls, angle=rng.choice([0.1, -0.3]), k1=rng.choice([0.0, 0.5]), tracking_method=method)
+        add("bend_vec_angle0_k1mix", cls, angle=[0.0, 0.0], k1=[0.0, 2.0], length=0.5, tracking_method="cheetah", tilt=0.0)
+        add("bend_vec_anglemix", cls, angle=[0.0, 0.1], k1=[1.0, 1.0], length=0.5, tracking_method="cheetah", tilt=0.0)
+    for method in ("cheetah", "bmadx"):
+        add("quad_k10", "Quadrupole", k1=0.0, length=rng.choice([0.25, 0.5, 1.0]), tracking_method=method)
+        add("quad_vec_k1mix", "Quadrupole", k1=[0.0, 2.0], length=0.5, tracking_method=method, tilt=0.0, misalignment=[0.0, 0.0])
+        add("drift", "Drift", length=rng.choice([0.25, 0.5, 1.0]), tracking_method=method)
+    add("solenoid_k0", "Solenoid", k=0.0, length=rng.choice([0.25, 1.0]), misalignment=rng.choice(realgen.MIS))
+    add("solenoid_vec_kmix", "Solenoid", k=[0.0, 1.0], length=0.5, misalignment=[0.0, 0.0])
+    add("cavity_v0", "Cavity", voltage=0.0, phase=rng.choice([0.0, 30.0]), length=rng.choice([0.5, 1.0]))
+    add("cavity_vec_vmix", "Cavity", voltage=[0.0, 1e6], phase=0.0, length=1.0)
+    add("tdc_v0", "TransverseDeflectingCavity", voltage=0.0, length=0.5)
+    add("tdc_vec_vmix", "TransverseDeflectingCavity", voltage=[0.0, 1e5], length=0.5, tilt=0.0, misalignment=[0.0, 0.0])
+    for cls in ("HorizontalCorrector", "VerticalCorrector"):
+        add("corrector_angle0", cls, angle=0.0, length=rng.choice([0.1, 0.5, 1.0]))
+        add("corrector_vec_anglemix", cls, angle=[0.0, 1e-3], length=0.5)
+        add("corrector_thin_angle0", cls, angle=0.0, length=0.0)
+    add("undulator_off", "Undulator", is_active=False, length=0.5)
+    add("undulator_on", "Undulator", is_active=True, length=0.5)
+    add("screen_off", "Screen", is_active=False)
+    add("bpm_off", "BPM", is_active=False)
+    add("aperture_off", "Aperture", is_active=False)
+    return out
+
+
+def _maxlen(x):
+    return float(torch.as_tensor(x.length).max())
+
+
+def _thick_live_corrector(e):
+    return type(e).__name__.endswith("Corrector") and bool(torch.any(e.angle != 0)) and bool(torch.any(e.length != 0))
+
+
+def oracle_any(spec, res, beams):
+    """The property on WHATEVER split() returns, for an element of any class: the piece lengths add up, the pieces keep the dtype,
+    tracking the pieces in turn equals tracking the element (both beam types; Bmad-X: particle beam).  Returns (failures, observation
+    for the class-level correspondence or None)."""
+    import cheetah
+    bad = []
+    try:
+        e = realgen.build(spec)
+    except Exception as ex:
+        return [], None                                  # the code rejects these parameters: nothing to split
+    try:
+        ps = e.split(torch.tensor(res, dtype=DT))
+    except Exception as ex:
+        return [f"{spec['cls']}.split raised {type(ex).__name__}: {ex}"[:300]], None
+    if not isinstance(ps, list) or not all(isinstance(p, torch.nn.Module) and hasattr(p, "track") for p in ps):
+        return [f"{spec['cls']}.split did not return a list of elements"], None
+    obs = {"cls": spec["cls"], "L": _maxlen(e), "res": res, "self": len(ps) == 1 and ps[0] is e,
+           "pieces": [[type(p).__name__, _maxlen(p)] for p in ps]}
+    L = torch.as_tensor(e.length)
+    tot = sum((torch.as_tensor(p.length) for p in ps), torch.zeros_like(L))
+    try:
+        if not torch.allclose(tot.expand_as(L) if tot.dim() <= L.dim() else tot, L, rtol=1e-12, atol=1e-15):
+            bad.append(f"piece lengths add up to {tot.tolist()}, the length is {L.tolist()}")
+    except Exception:
+        bad.append(f"piece lengths {tot.tolist()} cannot be compared with the length {L.tolist()}")
+    if any(torch.as_tensor(p.length).dtype != L.dtype for p in ps):
+        bad.append("a piece does not keep the dtype of the element")
+    if _thick_live_corrector(e) and not obs["self"]:
+        return bad, obs                                  # drift-then-kick: pieces kick earlier; only the angles add up (oracle_case)
+    bmadx = getattr(e, "tracking_method", "") == "bmadx"
+    for bname, b in beams:
+        if bmadx and bname != "particle":
+            continue
+        try:
+            whole = e.track(b)
+        except Exception:
+            continue                                     # the element itself cannot track this beam: nothing to compare with
+        if has_nan(whole):
+            continue
+        try:
+            out = b
+            for p in ps:
+                out = p.track(out)
+        except Exception as ex:
+            bad.append(f"tracking the {len(ps)} piece(s) raised {type(ex).__name__}: {ex}"[:300])
+            continue
+        d = realgen.beams_close(out, whole, rtol=1e-9, atol=1e-13)
+        if d:
+            bad.append(f"tracking the {len(ps)} piece(s) {sorted({type(p).__name__ for p in ps})} in turn differs from tracking the "
+                       f"{spec['cls']} ({bname} beam): {d}")
+    return bad, obs
+
+
+def coq_cls_case(o):
+    pcs = coq_list([f'("{c}", {qlit(l)})' for c, l in o["pieces"]])
+    return f'mkc16c "{o["cls"]}" {qlit(o["L"])} {qlit(o["res"])} 0 {"true" if o["self"] else "false"} {pcs}'
+
+
+def oracle_classes(run, beams, n_random):
+    """every class of realgen.CLASSES: the switched-off corners plus random parameter draws, each split at a random resolution.
+    Returns (failures for the verdict, Coq terms, the observations behind the terms)."""
+    bad, terms, seen = [], [], []
+    todo = class_corners(run.rng)
+    for cls in realgen.CLASSES:
+        for _ in range(n_random):
+            todo.append(("random", realgen.gen_element(run.rng, cls=cls, name="r")))
+    for label, spec in todo:
+        res = run.rng.choice(CLS_RES)
+        fails, obs = oracle_any(spec, res, beams)
+        run.count("anyclass_" + spec["cls"])
+        if label != "random":
+            run.count("corner_" + label)
+        run.add_case(["class_case", spec, res], obs is not None and len(obs["pieces"]) > 1)
+        if fails and not bad:
+            bad.append({"kind": "class_case", "spec": spec, "res": res, "corner": label, "failures": fails,
+                        "pieces": obs and obs["pieces"], "what": f"split() of a {spec['cls']} ({label})"})
+        if obs is None:
+            continue
+        ratio = Fraction(obs["L"]) / Fraction(res)
+        if obs["L"] != 0.0 and abs(ratio - round(ratio)) <= Fraction(1, 2 ** 50) * max(1, abs(ratio)):
+            continue                                     # float ceil vs exact ceil: unspecified
+        if STATE["f29_known"] and spec["cls"].endswith("Corrector") and obs["L"] == 0.0:
+            continue
+        terms.append(coq_cls_case(obs))
+        seen.append({"spec": spec, "res": res, "observed": obs})
+    return bad, terms, seen
+
+
 def replay_known(run, beams):
     """replays the stored input of every listed finding.  known + still failing -> KNOWN-FINDING; known + passing -> note (the
     status is stale); fixed + failing again -> VIOLATION (regression) with that input.  Returns the set of ids that regressed."""
@@ -524,7 +672,11 @@ def main(tier, replay=None):
                        "vm_compute of the rational model (split / split_fixed by the status of F29); plus sums, bounds, dtype, attributes, sequential tracking of the pieces vs the whole on "
                        "both beam types, unsplittable classes, segments (uniquely named; and segments in which different elements / sub-segments "
                        "share a name, flat and nested, with reused instances: split == concatenation of each occurrence's own split, lengths add "
-                       "up, tracking the pieces == tracking the segment), vectorised lengths. Non-trivial = more than one piece; distinct by "
+                       "up, tracking the pieces == tracking the segment), vectorised lengths; EVERY class (both tracking methods) with the parameter "
+                       "is_active looks at set to zero while the element still acts (Dipole/RBend angle 0 with k1, edge angles, fringe fields; Quadrupole k1 0; "
+                       "Solenoid k 0; Cavity / TDC voltage 0; correctors angle 0; vectorised mixes of zero and non-zero strengths) and random parameters: "
+                       "whatever split() returns is tracked piece by piece vs the element (both beam types), and its classes / counts are compared with "
+                       "the model by vm_compute (Lattice/SplitClasses.v). Non-trivial = more than one piece; distinct by "
                        "case content.")
     # finding F29: while it is listed `known` the faithful model is `split` (the code before the repair); once it is flipped to
     # `fixed` the faithful model is `split_fixed` and a thin corrector that loses its angle is a regression
@@ -598,6 +750,11 @@ def main(tier, replay=None):
                 run.notes.append("F29 is listed fixed but split() of a zero-length corrector equals the old model `split`: the repaired defect is back")
     misc_bad = oracle_misc(run)
     misc_bad += oracle_dup(run, beams, 150 if thorough else 15)
+    # every class (switched-off corners included): the property on whatever split() returns + which classes slice, vs the model
+    cls_bad, cls_terms, cls_seen = oracle_classes(run, beams, 12 if thorough else 2)
+    misc_bad += cls_bad
+    failing_cls = common.run_shards(PID, "classes", PREAMBLE_CLS, cls_terms, "c16_class_check") if cls_terms else []
+    run.cov["traces_validated_against_impl"] += len(cls_terms)
     regressed = replay_known(run, beams)
     if "F29" in regressed:      # explained by the regression just reported (with the stored input)
         impl_bad = [(c, bad) for c, bad in impl_bad if not f29_signature(c, len(observe(c)[2]))]
@@ -621,6 +778,11 @@ def main(tier, replay=None):
         run.violation({"kind": "correspondence", "broken": "rational model Lattice/Split.v (c16_check) disagrees with split() on this case",
                        "case": c, "pieces": observe(c)[0], "model_count": exact_n(c["L"], c["res"], c["cls"]),
                        "model": run.cov["split_model"]}, no_input=True)
+    elif failing_cls:
+        o = cls_seen[failing_cls[0]]
+        run.violation({"kind": "class_correspondence", "broken": "Lattice/SplitClasses.v (c16_class_check): split() of this element returns other "
+                       "classes / counts than the model (which classes slice, into what); the tracking oracle found no input on which the "
+                       "pieces act differently", "spec": o["spec"], "res": o["res"], "observed": o["observed"]}, no_input=True)
     elif tr["status"] != "ok":
         # the source no longer translates to the proved model; none of this run's oracles found a failing input
         run.violation(translate_stage.replay_fields(tr), no_input=True)
@@ -642,6 +804,12 @@ def do_replay(run, path):
         beams = [("particle", realgen.build_beam(realgen.gen_particle_beam(run.rng, n=4, energy=2e7))),
                  ("parameter", realgen.build_beam(realgen.gen_parameter_beam(run.rng, energy=1e8)))]
         bad = oracle_dup_segment(r["lattice"], r["res"], beams)
+        print("replay:", "property holds on this input" if not bad else f"property FAILS on this input: {bad}")
+        return 1 if bad else 0
+    if r.get("kind") == "class_case":
+        beams = [("particle", realgen.build_beam(realgen.gen_particle_beam(run.rng, n=4, energy=2e7))),
+                 ("parameter", realgen.build_beam(realgen.gen_parameter_beam(run.rng, energy=1e8)))]
+        bad, _ = oracle_any(r["spec"], r["res"], beams)
         print("replay:", "property holds on this input" if not bad else f"property FAILS on this input: {bad}")
         return 1 if bad else 0
     print("replay: re-running the miscellaneous oracle")
